@@ -496,6 +496,49 @@ func (p c17) runShellVars(w *mon.Worker, r *rand.Rand, dir string, traced bool) 
 		res.Detail = fmt.Sprintf("binary and library disagree on -o=shell: %q vs %q (err=%v)", clipStr(out, 300), clipStr(lib, 300), err)
 		return res
 	}
+	// names are formed from where a value stands NOW: the -o=shell text of a re-arranged document (reversed, sliced,
+	// doubled, filtered) is the -o=shell text of that document written out as JSON and read again
+	if r.IntN(4) == 0 {
+		sel := shExpr
+		if sel == "." {
+			sel = ""
+		}
+		re := []string{" | (.. | select(kind == \"seq\")) |= reverse", " | (.. | select(kind == \"seq\")) |= .[1:]", " | (.. | select(kind == \"seq\")) |= . + .",
+			" | (.. | select(kind == \"seq\")) |= [.[] | select(true)]", " | [., .]", " | (.. | select(kind == \"seq\")) |= (.[1:] + .[:1])"}[r.IntN(6)]
+		ex := "." + strings.TrimPrefix(sel, ".") + re
+		if sel == "" {
+			ex = "." + re
+		}
+		direct := mon.Run(mon.RunOpts{Dir: dir}, w.YqBin(), "-o=shell", ex, docf)
+		mid := mon.Run(mon.RunOpts{Dir: dir}, w.YqBin(), "-o=json", ex, docf) // (JSON carries every string exactly)
+		res.Evals += 2
+		if !direct.TimedOut && !mid.TimedOut && direct.Exit == 0 && mid.Exit == 0 {
+			midf := filepath.Join(dir, "mid.json")
+			_ = os.WriteFile(midf, mid.Stdout, 0o644)
+			again := mon.Run(mon.RunOpts{Dir: dir}, w.YqBin(), "-p=json", "-o=shell", ".", midf)
+			res.Evals++
+			// (the NAMES are compared: JSON re-spells typed scalars - NULL, 0x1F, FALSE - which is not this route's business)
+			namesOf := func(out []byte) (string, bool) {
+				as, err := parseShellAssignments(string(out))
+				if err != nil {
+					return "", false
+				}
+				var ns []string
+				for _, a := range as {
+					ns = append(ns, a.name)
+				}
+				return strings.Join(ns, " "), true
+			}
+			n1, ok1 := namesOf(direct.Stdout)
+			n2, ok2 := namesOf(again.Stdout)
+			if !again.TimedOut && again.Exit == 0 && ok1 && ok2 && n1 != n2 {
+				res.Verdict = mon.Violated
+				res.Detail = fmt.Sprintf("yq -o=shell '%s' differs from yq -o=shell . on the JSON that `%s` writes\n direct:\n%s after the round trip:\n%s", ex, ex, clipStr(string(direct.Stdout), 500), clipStr(string(again.Stdout), 500))
+				return res
+			}
+			res.Tags = append(res.Tags, "rearranged_round_trip")
+		}
+	}
 	assigns, perr := parseShellAssignments(out)
 	if perr != nil {
 		res.Verdict = mon.Violated
